@@ -3,12 +3,17 @@ package c14
 import (
 	"context"
 	"database/sql"
+	"database/sql/driver"
 	"errors"
 	"fmt"
+	"io"
+	"net/http"
 	"strings"
 	"testing"
 	"time"
 
+	"github.com/go-sql-driver/mysql"
+	"github.com/zeromicro/go-zero/core/breaker"
 	"github.com/zeromicro/go-zero/core/logx"
 	"github.com/zeromicro/go-zero/core/stores/sqlc"
 	"github.com/zeromicro/go-zero/core/stores/sqlx"
@@ -23,15 +28,22 @@ import (
 // begin; returned error nil only when the commit succeeded; commit / rollback
 // failures reported.
 //
-// Enumerated mode (4 runs out of 5): every run executes ONE transaction on a fresh
-// database; the (api, tx-layer fault, body size, body ending, position) tuple is
-// decoded from one uniform draw, so a batch covers the whole space many times
-// (measured by the tuple-* probes; the draw is random, not a counter).
+// Every Transact/TransactCtx call of a run is one "world" (its plan, what its body did,
+// what the caller got); all worlds of a run share one recording database and one SqlConn.
 //
-// Pool mode (1 run out of 5, pool_test.go): 2-3 client tasks each run one
-// transaction on the SAME sql.DB / SqlConn, with their own fault plans, pauses
-// inside the bodies and optionally a canceller task; the same oracle is applied
-// per client to that client's events in the shared driver log.
+// Sequence mode (4 runs out of 5): the main task runs 1..12 transactions one after another
+// on the same SqlConn.  The FIRST one is the enumerated one: its (api, tx-layer fault, body
+// size, body ending, position) tuple is decoded from one uniform draw, so a batch covers
+// the whole space many times (measured by the tuple-* probes; the draw is random, not a
+// counter).  Everything else is sampled: how the SqlConn was constructed, the shape of the
+// context, the identity of every injected error / returned error / panic value, statement
+// kinds and the way a statement fails, pauses of the body in virtual time, a nested
+// (re-entrant) Transact call made by the body, the following transactions of the sequence
+// (optionally a database outage that makes the breaker reject calls).
+//
+// Pool mode (1 run out of 5, pool_test.go): 2-3 client tasks run 1-2 transactions each on
+// the SAME SqlConn with pauses inside the bodies and optionally a canceller task / a
+// deadline; the same oracle is applied per transaction to its events in the shared log.
 
 func init() { logx.Disable() }
 
@@ -43,10 +55,10 @@ const (
 	endNil         ending = iota // body runs its n statements and returns nil
 	endErr                       // body returns an error of its own after pos statements
 	endPanic                     // body panics after pos statements
-	endStmtFail                  // the pos-th statement fails in the driver, body returns that error
+	endStmtFail                  // the pos-th statement fails, body returns that error
 	endStmtIgnored               // the pos-th statement fails, body ignores it, finishes, returns nil
-	endCancel                    // body cancels the context after pos statements and carries on
-	endAsyncCancel               // pool mode only (not part of the enumerated space): a canceller task cancels the context at a tape-drawn virtual instant while the body pauses between statements
+	endCancel                    // the context ends after pos statements (the body cancels it, or waits until its deadline has passed) and the body carries on
+	endAsyncCancel               // pool mode only (not part of the enumerated space): the context ends at a tape-drawn virtual instant (canceller task or deadline) while the body pauses between statements
 )
 
 var endingNames = [...]string{"nil", "err", "panic", "stmtfail", "stmtignored", "cancel", "asynccancel"}
@@ -133,56 +145,270 @@ func decode(idx int) tuple {
 	return tp
 }
 
-// ---- the workload -------------------------------------------------------------
+// ---- sampled dimensions -----------------------------------------------------------
 
+// statement kinds (every statement method of sqlx.Session / sqlx.StmtSession)
 const (
 	kExec = iota
 	kQueryRow
 	kQueryRows
 	kPrepExec
 	kPrepQueryRow
+	kQueryRowPartial
+	kQueryRowsPartial
+	kPrepQueryRows
+	kPrepQueryRowPartial
+	kPrepQueryRowsPartial
 	nKinds
 )
 
-var kindNames = [...]string{"Exec", "QueryRow", "QueryRows", "Prepare+Exec", "Prepare+QueryRow"}
+var kindNames = [...]string{"Exec", "QueryRow", "QueryRows", "Prepare+Exec", "Prepare+QueryRow",
+	"QueryRowPartial", "QueryRowsPartial", "Prepare+QueryRows", "Prepare+QueryRowPartial", "Prepare+QueryRowsPartial"}
+
+func isSingleRow(k int) bool {
+	return k == kQueryRow || k == kPrepQueryRow || k == kQueryRowPartial || k == kPrepQueryRowPartial
+}
+func isMultiRow(k int) bool {
+	return k == kQueryRows || k == kQueryRowsPartial || k == kPrepQueryRows || k == kPrepQueryRowsPartial
+}
+func isQueryKind(k int) bool { return isSingleRow(k) || isMultiRow(k) }
+func isPrepared(k int) bool {
+	return k == kPrepExec || k == kPrepQueryRow || k == kPrepQueryRows || k == kPrepQueryRowPartial || k == kPrepQueryRowsPartial
+}
+
+// the way the planned statement failure comes about
+const (
+	fmDriver  = iota // the driver's exec / query call fails
+	fmEmpty          // a single-row query finds nothing (ErrNotFound without a driver error)
+	fmPrepare        // the driver's prepare call fails
+	fmArgs           // placeholder / argument count mismatch: go-zero refuses the statement before it reaches the driver
+	fmScan           // the driver succeeds, the result cannot be stored in the destination
+	fmRows           // a multi-row result breaks after its first row (rows.Err)
+	nFailModes
+)
+
+// the shape of the context handed to TransactCtx (and used by the body for its *Ctx statements)
+const (
+	cxPlain         = iota // cancellable, never ends by itself
+	cxFarDeadline          // deadline an hour away
+	cxValue                // carries a value (and is cancellable)
+	cxShortDeadline        // deadline a few ms away: expires wherever the call happens to be when the body pauses (or a stall hits)
+	cxPreCancelled         // already cancelled when Transact is called
+	cxPreExpired           // deadline already passed when Transact is called
+	cxBodyDeadline         // ending "cancel" by deadline: the body waits after pos statements until the deadline has passed
+	cxAsyncDeadline        // pool mode, ending "asynccancel" by deadline: expires at a tape-drawn virtual instant of the run
+)
+
+var ctxNames = [...]string{"plain", "far-deadline", "value", "short-deadline", "pre-cancelled", "pre-expired", "body-deadline", "async-deadline"}
+var ctxTable = [...]int{cxPlain, cxPlain, cxPlain, cxPlain, cxPlain, cxFarDeadline, cxValue, cxShortDeadline, cxShortDeadline, cxShortDeadline, cxPreCancelled, cxPreExpired}
+
+// identity of an injected driver error, index into identNames (simsql_test.go); 0 = opaque error of the stub
+var identTable = [...]int{0, 0, 0, 1, 2, 3, 4, 5, 6, 7, 8, 9, 10, 11, 12}
+
+// nested (re-entrant) Transact call made by the body
+const (
+	nestNone        = iota
+	nestIndependent // a second, independent transaction on the same SqlConn (another pooled connection)
+	nestOnSession   // Transact on a SqlConn made of the transaction's own session (sqlx.NewSqlConnFromSession / sqlc.CachedConn.WithSession): transactions cannot nest, nothing may run
+)
+
+var nestTable = [...]int{nestNone, nestNone, nestNone, nestNone, nestNone, nestNone, nestIndependent, nestOnSession, nestOnSession}
+
+// how the SqlConn of the run is constructed
+const (
+	ckFromDB        = iota // sqlx.NewSqlConnFromDB(db)
+	ckFromDBAccept         // ... with one WithAcceptable option
+	ckFromDBAccept2        // ... with two WithAcceptable options (chained)
+	ckManaged              // sqlx.NewSqlConn(driver, datasource): go-zero opens, pings, sizes and caches the pool itself at first use
+	ckManagedAccept        // ... with a WithAcceptable option
+	ckUnknownDSN           // sqlx.NewSqlConn with a datasource the driver refuses: the pool can never be obtained
+	ckClosedDB             // sqlx.NewSqlConnFromDB(db), and db is closed before the closeAt-th transaction of the sequence
+)
+
+var connNames = [...]string{"NewSqlConnFromDB", "NewSqlConnFromDB+WithAcceptable", "NewSqlConnFromDB+2xWithAcceptable", "NewSqlConn", "NewSqlConn+WithAcceptable", "NewSqlConn-unknown-datasource", "NewSqlConnFromDB-closed-db"}
+var connTable = [...]int{ckFromDB, ckFromDB, ckFromDB, ckFromDB, ckFromDB, ckFromDBAccept, ckFromDBAccept2, ckManaged, ckManaged, ckManagedAccept, ckUnknownDSN, ckClosedDB}
+
+// number of transactions run one after another on the SqlConn
+var seqTable = [...]int{1, 1, 1, 1, 1, 1, 1, 1, 1, 1, 2, 2, 3, 4, 7, 12}
 
 type customPanic struct{ code int }
+
+// bizError: an error type of the application; a nil *bizError stored in an error is a non-nil error.
+type bizError struct{ msg string }
+
+func (e *bizError) Error() string {
+	if e == nil {
+		return "bizError(nil)"
+	}
+	return e.msg
+}
+
+// aliasError claims (through Is) to be another error.
+type aliasError struct{ target error }
+
+func (e aliasError) Error() string        { return "body: alias of " + e.target.Error() }
+func (e aliasError) Is(target error) bool { return target == e.target }
+
+var bodyErrNames = [...]string{"own", "sql.ErrNoRows", "context.Canceled", "sql.ErrTxDone", "wrapped-ErrNotFound",
+	"context.DeadlineExceeded", "breaker.ErrServiceUnavailable", "driver.ErrBadConn", "mysql.ErrInvalidConn",
+	"joined-own+ErrNoRows", "typed-nil", "mysql-1062-duplicate", "alias-of-context.Canceled", "io.EOF", "wrapped-DeadlineExceeded", "mysql-1213-deadlock"}
+
+var panicNames = [...]string{"string", "error", "struct", "nil", "runtime-nil-map-write", "http.ErrAbortHandler",
+	"error-wrapping-ErrNoRows", "context.Canceled", "runtime-index-out-of-range", "pointer", "driver.ErrBadConn", "sql.ErrTxDone"}
 
 type pause struct {
 	yields int
 	sleep  time.Duration
 }
 
-type world struct {
-	r      *simrt.Run
-	db     *simDB
-	tp     tuple
-	client int  // 0 in the enumerated mode
-	pool   bool // pool mode: the driver log is shared with other clients
-	// pool mode only
-	pauses             []pause // pauses[k]: before the action "after k statements"
-	ignoreCancel       bool    // endAsyncCancel: the body ignores statements refused because of the cancelled context
-	cancelFired        bool    // set by the canceller task right before it cancels
-	cancelledAtReturn  bool
-	ret                error
-	escaped            any
-	didEscape          bool
-	kinds              []int  // statement kinds, 1-based
-	useCtx             []bool // statement uses the *Ctx method with the body's context
-	wrap               bool   // body wraps a statement error before returning it
-	errKind, panicKind int
-	cancel             context.CancelFunc
-	bctx               context.Context
+// ---- one run's shared environment -------------------------------------------------------
 
-	bodyRuns    int
-	outcome     string // "nil" | "err" | "panic" of the last body execution
-	bodyErr     error
-	bodyEndMark int // number of driver events when the body finished
-	stmtsIssued int
-	unexpected  int
+type env struct {
+	r        *simrt.Run
+	tier     string
+	pool     bool
+	db       *simDB
+	start    time.Time
+	sqlDB    *sql.DB // nil when go-zero owns the pool (sqlx.NewSqlConn)
+	conn     sqlx.SqlConn
+	connKind int
+	maxSleep time.Duration // upper bound for one pause of a body
+	// stack: task id -> ids of the worlds whose Transact call is in progress on that task,
+	// innermost last.  BEGIN / connect events are attributed to the innermost one.
+	stack   map[int][]int
+	worlds  []*world // every world of the run, by id
+	cancels []context.CancelFunc
 }
 
-// query tags the statement text with 100*client + statement number (see simsql stmtTag).
+func newEnv(r *simrt.Run, tier, name string, pool bool) *env {
+	e := &env{r: r, tier: tier, pool: pool, db: newSimDB(name), start: time.Now(), stack: map[int][]int{}, maxSleep: time.Hour}
+	e.db.whoFn = func() int {
+		st := e.stack[r.CurrentID()]
+		if len(st) == 0 {
+			return -1 // no Transact call in progress on this task (sql.Open / Ping at the end / Close, database/sql's own goroutines)
+		}
+		return st[len(st)-1]
+	}
+	return e
+}
+
+type ctxKey struct{}
+
+// open constructs the SqlConn of the run; returns false on an engine error.
+func (e *env) open(connKind int, accModes []int) (cleanup func(), ok bool) {
+	r := e.r
+	e.connKind = connKind
+	dsn := register(e.db)
+	var opts []sqlx.SqlOption
+	for _, m := range accModes {
+		m := m
+		opts = append(opts, sqlx.WithAcceptable(func(err error) bool {
+			switch m {
+			case 1:
+				return true
+			case 2:
+				return errors.Is(err, context.DeadlineExceeded) || errors.Is(err, driver.ErrBadConn)
+			}
+			return false
+		}))
+	}
+	switch connKind {
+	case ckManaged, ckManagedAccept, ckUnknownDSN:
+		ds := dsn
+		if connKind == ckUnknownDSN {
+			ds = dsn + "-unknown" // never registered: the driver refuses it
+		}
+		e.conn = sqlx.NewSqlConn(driverName, ds, opts...)
+		return func() {
+			// go-zero caches the pool for ever; close it so that database/sql's goroutines of this run end
+			if raw, err := e.conn.RawDB(); err == nil {
+				raw.Close()
+			}
+			unregister(dsn)
+		}, true
+	}
+	sqlDB, err := sql.Open(driverName, dsn)
+	if err != nil {
+		unregister(dsn)
+		r.EngineError("sql.Open: %v", err)
+		return nil, false
+	}
+	e.sqlDB = sqlDB
+	e.conn = sqlx.NewSqlConnFromDB(sqlDB, opts...)
+	return func() {
+		sqlDB.Close() // ends database/sql's connectionOpener goroutine of this run
+		unregister(dsn)
+	}, true
+}
+
+func (e *env) finish() {
+	for _, c := range e.cancels {
+		c()
+	}
+}
+
+// ---- one Transact call ---------------------------------------------------------------------
+
+type world struct {
+	r    *simrt.Run
+	env  *env
+	db   *simDB
+	tp   tuple
+	id   int  // statement tags are 100*id + statement number; fault plans are keyed by id
+	pool bool // pool mode: other tasks use the SqlConn at the same time
+
+	depth         int  // 0 = called by the client, 1 = called from inside the body of another world
+	sessionNested bool // called on a SqlConn made of the enclosing transaction's session: cannot begin
+	openFails     bool // the SqlConn cannot obtain its pool (unknown datasource) or the pool was closed: cannot begin
+	parentSession sqlx.Session
+
+	// plan
+	kinds       []int  // statement kinds, 1-based
+	useCtx      []bool // statement uses the *Ctx method with the body's context
+	argMismatch []bool
+	badDest     []bool
+	wrap        bool // body wraps a statement error before returning it
+	errKind     int
+	panicKind   int
+	failMode    int
+	ctxKind     int
+	ctxD        time.Duration // cxShortDeadline / cxBodyDeadline: time to the deadline at creation
+	pauses      []pause       // pauses[k]: before the action "after k statements"
+	nested      *world
+	nestAt      int
+	nestProp    bool // the body returns the nested call's error as its own
+
+	// pool mode only
+	ignoreCancel bool          // endAsyncCancel: the body ignores statements refused because of the ended context
+	cancelAt     time.Duration // endAsyncCancel: virtual instant (from the start of the run) at which the context ends
+
+	// what happened
+	called           bool
+	bctx             context.Context
+	cancel           context.CancelFunc
+	deadline         time.Time
+	ctxDoneAtCall    bool
+	ctxErrAtReturn   error
+	ret              error
+	escaped          any
+	didEscape        bool
+	inUseAfter       int // connections checked out right after the call returned (-1: not measured)
+	bodyRuns         int
+	outcome          string // "nil" | "err" | "panic" of the last body execution
+	bodyErr          error
+	bodyEndMark      int // number of driver events when the body finished
+	stmtsIssued      int
+	unexpected       int
+	nestedDone       bool
+	argFaultSeen     bool
+	scanFaultSeen    bool
+	deadlineInBody   bool
+	refusedAfterDone int
+}
+
+func (w *world) ctxAPI() bool { return w.tp.api == apiSqlxTransactCtx || w.tp.api == apiSqlcTransactCtx }
+
+// query tags the statement text with 100*world + statement number (see simsql stmtTag).
 func query(tag int, suffix string) string {
 	return fmt.Sprintf("/*s%d*/ %s where id = ?", tag, suffix)
 }
@@ -190,11 +416,27 @@ func query(tag int, suffix string) string {
 // stmt issues the k-th statement of the body on the transaction session.
 func (w *world) stmt(ctx context.Context, s sqlx.Session, k int) error {
 	w.stmtsIssued++
-	uc := w.useCtx[k]
-	tag := 100*w.client + k
-	switch w.kinds[k] {
+	uc, kind := w.useCtx[k], w.kinds[k]
+	text := "update t set v = v + 1"
+	if isQueryKind(kind) {
+		text = "select v from t"
+	}
+	q := query(100*w.id+k, text)
+	if w.argMismatch[k] {
+		q += " and w = ?" // two placeholders, one argument
+	}
+	var one int64
+	var many []int64
+	var bad chan int
+	var dest any = &one
+	if isMultiRow(kind) {
+		dest = &many
+	}
+	if w.badDest[k] {
+		dest = &bad
+	}
+	switch kind {
 	case kExec:
-		q := query(tag, "update t set v = v + 1")
 		if uc {
 			_, err := s.ExecCtx(ctx, q, k)
 			return err
@@ -202,49 +444,66 @@ func (w *world) stmt(ctx context.Context, s sqlx.Session, k int) error {
 		_, err := s.Exec(q, k)
 		return err
 	case kQueryRow:
-		var v int64
-		q := query(tag, "select v from t")
 		if uc {
-			return s.QueryRowCtx(ctx, &v, q, k)
+			return s.QueryRowCtx(ctx, dest, q, k)
 		}
-		return s.QueryRow(&v, q, k)
+		return s.QueryRow(dest, q, k)
+	case kQueryRowPartial:
+		if uc {
+			return s.QueryRowPartialCtx(ctx, dest, q, k)
+		}
+		return s.QueryRowPartial(dest, q, k)
 	case kQueryRows:
-		var vs []int64
-		q := query(tag, "select v from t")
 		if uc {
-			return s.QueryRowsCtx(ctx, &vs, q, k)
+			return s.QueryRowsCtx(ctx, dest, q, k)
 		}
-		return s.QueryRows(&vs, q, k)
-	default:
-		q := query(tag, "update t set v = v - 1")
-		if w.kinds[k] == kPrepQueryRow {
-			q = query(tag, "select v from t")
-		}
-		var st sqlx.StmtSession
-		var err error
+		return s.QueryRows(dest, q, k)
+	case kQueryRowsPartial:
 		if uc {
-			st, err = s.PrepareCtx(ctx, q)
-		} else {
-			st, err = s.Prepare(q)
+			return s.QueryRowsPartialCtx(ctx, dest, q, k)
 		}
-		if err != nil {
-			return err
-		}
-		defer st.Close()
-		if w.kinds[k] == kPrepQueryRow {
-			var v int64
-			if uc {
-				return st.QueryRowCtx(ctx, &v, k)
-			}
-			return st.QueryRow(&v, k)
-		}
-		if uc {
-			_, err = st.ExecCtx(ctx, k)
-		} else {
-			_, err = st.Exec(k)
-		}
+		return s.QueryRowsPartial(dest, q, k)
+	}
+	// prepared statement kinds
+	var st sqlx.StmtSession
+	var err error
+	if uc {
+		st, err = s.PrepareCtx(ctx, q)
+	} else {
+		st, err = s.Prepare(q)
+	}
+	if err != nil {
 		return err
 	}
+	defer st.Close()
+	switch kind {
+	case kPrepQueryRow:
+		if uc {
+			return st.QueryRowCtx(ctx, dest, k)
+		}
+		return st.QueryRow(dest, k)
+	case kPrepQueryRowPartial:
+		if uc {
+			return st.QueryRowPartialCtx(ctx, dest, k)
+		}
+		return st.QueryRowPartial(dest, k)
+	case kPrepQueryRows:
+		if uc {
+			return st.QueryRowsCtx(ctx, dest, k)
+		}
+		return st.QueryRows(dest, k)
+	case kPrepQueryRowsPartial:
+		if uc {
+			return st.QueryRowsPartialCtx(ctx, dest, k)
+		}
+		return st.QueryRowsPartial(dest, k)
+	}
+	if uc {
+		_, err = st.ExecCtx(ctx, k)
+	} else {
+		_, err = st.Exec(k)
+	}
+	return err
 }
 
 func (w *world) ownError() error {
@@ -257,22 +516,63 @@ func (w *world) ownError() error {
 		return sql.ErrTxDone
 	case 4:
 		return fmt.Errorf("wrapped: %w", sqlx.ErrNotFound)
+	case 5:
+		return context.DeadlineExceeded
+	case 6:
+		return breaker.ErrServiceUnavailable // e.g. handed on from a call to another service
+	case 7:
+		return driver.ErrBadConn
+	case 8:
+		return mysql.ErrInvalidConn
+	case 9:
+		return errors.Join(errors.New("body: business rule failed"), sql.ErrNoRows)
+	case 10:
+		var e *bizError
+		return e // a nil pointer in a non-nil error
+	case 11:
+		return &mysql.MySQLError{Number: 1062, Message: "Duplicate entry 'x' for key 'uk' (seen by the body)"}
+	case 12:
+		return aliasError{target: context.Canceled}
+	case 13:
+		return io.EOF
+	case 14:
+		return fmt.Errorf("body: remote call: %w", context.DeadlineExceeded)
+	case 15:
+		return &mysql.MySQLError{Number: 1213, Message: "Deadlock found when trying to get lock (seen by the body)"}
 	default:
 		return errors.New("body: business rule failed")
 	}
 }
 
-func (w *world) panicValue() any {
+// doPanic panics with the planned value (kinds 4 and 8 are genuine runtime errors).
+func (w *world) doPanic() {
 	switch w.panicKind {
 	case 1:
-		return errors.New("body: panic with an error value")
+		panic(errors.New("body: panic with an error value"))
 	case 2:
-		return customPanic{code: 42}
+		panic(customPanic{code: 42})
 	case 3:
-		return nil // panic(nil): a *runtime.PanicNilError since go1.21
-	default:
-		return "body: boom"
+		panic(nil) // a *runtime.PanicNilError since go1.21
+	case 4:
+		var m map[int]int
+		m[w.id] = 1 // assignment to entry in nil map
+	case 5:
+		panic(http.ErrAbortHandler)
+	case 6:
+		panic(fmt.Errorf("body: lookup: %w", sql.ErrNoRows))
+	case 7:
+		panic(context.Canceled)
+	case 8:
+		var a []int
+		_ = a[w.id+1] // index out of range
+	case 9:
+		panic(&customPanic{code: 7})
+	case 10:
+		panic(driver.ErrBadConn)
+	case 11:
+		panic(sql.ErrTxDone)
 	}
+	panic("body: boom")
 }
 
 func (w *world) finish(outcome string, err error) error {
@@ -287,12 +587,23 @@ func (w *world) txBody(ctx context.Context, s sqlx.Session) error {
 	w.outcome = "running"
 	tp := w.tp
 	for done := 0; ; done++ {
-		if done < len(w.pauses) { // pool mode: let the other clients (and the canceller) run
+		if done < len(w.pauses) { // let virtual time pass / the other clients (and the canceller) run
 			for i := 0; i < w.pauses[done].yields; i++ {
 				w.r.Yield()
 			}
 			if d := w.pauses[done].sleep; d > 0 {
 				w.r.Sleep(d)
+			}
+		}
+		// re-entrant call
+		if w.nested != nil && w.nestAt == done && !w.nestedDone {
+			w.nestedDone = true
+			in := w.nested
+			in.parentSession = s
+			in.transact(ctx)
+			if in.ret != nil && w.nestProp {
+				w.r.Probe("nested-error-returned-by-outer-body")
+				return w.finish("err", fmt.Errorf("body: inner transaction: %w", in.ret))
 			}
 		}
 		// action "after <done> statements"
@@ -302,32 +613,43 @@ func (w *world) txBody(ctx context.Context, s sqlx.Session) error {
 				return w.finish("err", w.ownError())
 			case endPanic:
 				w.finish("panic", nil)
-				panic(w.panicValue())
+				w.doPanic()
 			case endCancel:
-				w.cancel()
-				w.r.Probe("ctx-cancelled-in-body")
+				if w.ctxKind == cxBodyDeadline {
+					if d := time.Until(w.deadline); d >= 0 {
+						w.r.Sleep(d + time.Millisecond)
+					}
+					w.r.Probe("ctx-deadline-passed-in-body")
+				} else {
+					w.cancel()
+					w.r.Probe("ctx-cancelled-in-body")
+				}
 			}
 		}
 		if done == tp.n {
 			break
 		}
 		if err := w.stmt(ctx, s, done+1); err != nil {
-			planned := (tp.end == endStmtFail || tp.end == endStmtIgnored) && tp.pos == done+1
-			if tp.end == endCancel && done >= tp.pos && errors.Is(err, context.Canceled) {
-				w.r.Probe("stmt-refused-after-cancel")
-				planned = true
+			atFault := (tp.end == endStmtFail || tp.end == endStmtIgnored) && tp.pos == done+1
+			planned := atFault
+			if atFault && w.argMismatch[done+1] {
+				w.argFaultSeen = true
 			}
-			if tp.end == endAsyncCancel && w.cancelFired && errors.Is(err, context.Canceled) {
-				w.r.Probe("pool-stmt-refused-after-async-cancel")
+			if atFault && w.badDest[done+1] {
+				w.scanFaultSeen = true
+			}
+			if cerr := w.bctx.Err(); cerr != nil && errors.Is(err, cerr) {
+				// the statement was refused because the context has ended
+				w.refusedAfterDone++
 				planned = true
-				if w.ignoreCancel {
+				if tp.end == endAsyncCancel && w.ignoreCancel {
 					continue
 				}
 			}
 			if !planned {
 				w.unexpected++
 			}
-			if tp.end == endStmtIgnored && tp.pos == done+1 {
+			if tp.end == endStmtIgnored && atFault {
 				continue
 			}
 			if w.wrap {
@@ -339,14 +661,257 @@ func (w *world) txBody(ctx context.Context, s sqlx.Session) error {
 	return w.finish("nil", nil)
 }
 
+// makeCtx builds the context of the call (derived from the enclosing body's context for a nested call).
+func (w *world) makeCtx(parent context.Context) {
+	e := w.env
+	switch w.ctxKind {
+	case cxFarDeadline:
+		w.bctx, w.cancel = context.WithTimeout(parent, time.Hour)
+	case cxValue:
+		c, cancel := context.WithCancel(parent)
+		w.bctx, w.cancel = context.WithValue(c, ctxKey{}, w.id), cancel
+	case cxShortDeadline, cxBodyDeadline:
+		w.bctx, w.cancel = context.WithTimeout(parent, w.ctxD)
+	case cxPreCancelled:
+		w.bctx, w.cancel = context.WithCancel(parent)
+		w.cancel()
+	case cxPreExpired:
+		w.bctx, w.cancel = context.WithDeadline(parent, time.Now().Add(-time.Second))
+	case cxAsyncDeadline:
+		w.bctx, w.cancel = context.WithDeadline(parent, e.start.Add(w.cancelAt))
+	default:
+		w.bctx, w.cancel = context.WithCancel(parent)
+	}
+	w.deadline, _ = w.bctx.Deadline()
+	e.cancels = append(e.cancels, w.cancel)
+}
+
+// transact performs the Transact/TransactCtx call of this world and keeps what the caller got.
+func (w *world) transact(parent context.Context) {
+	e := w.env
+	tid := e.r.CurrentID()
+	e.stack[tid] = append(e.stack[tid], w.id)
+	w.called = true
+	w.inUseAfter = -1
+	defer func() {
+		if p := recover(); p != nil {
+			w.escaped, w.didEscape = p, true
+		}
+		e.stack[tid] = e.stack[tid][:len(e.stack[tid])-1]
+		w.ctxErrAtReturn = w.bctx.Err()
+		if !w.pool && e.sqlDB != nil {
+			w.inUseAfter = e.sqlDB.Stats().InUse
+		}
+	}()
+	if w.bctx == nil {
+		w.makeCtx(parent)
+	}
+	w.ctxDoneAtCall = w.bctx.Err() != nil
+	plain := func(s sqlx.Session) error { return w.txBody(w.bctx, s) }
+	if w.sessionNested {
+		// transactions cannot nest: a SqlConn made of the enclosing transaction's session
+		switch w.tp.api {
+		case apiSqlxTransact:
+			w.ret = sqlx.NewSqlConnFromSession(w.parentSession).Transact(plain)
+		case apiSqlxTransactCtx:
+			w.ret = sqlx.NewSqlConnFromSession(w.parentSession).TransactCtx(w.bctx, w.txBody)
+		case apiSqlcTransact:
+			w.ret = sqlc.NewConnWithCache(e.conn, nil).WithSession(w.parentSession).Transact(plain)
+		default:
+			w.ret = sqlc.NewConnWithCache(e.conn, nil).WithSession(w.parentSession).TransactCtx(w.bctx, w.txBody)
+		}
+		return
+	}
+	switch w.tp.api {
+	case apiSqlxTransact:
+		w.ret = e.conn.Transact(plain)
+	case apiSqlxTransactCtx:
+		w.ret = e.conn.TransactCtx(w.bctx, w.txBody)
+	case apiSqlcTransact:
+		w.ret = sqlc.NewConnWithCache(e.conn, nil).Transact(plain)
+	default:
+		w.ret = sqlc.NewConnWithCache(e.conn, nil).TransactCtx(w.bctx, w.txBody)
+	}
+}
+
+// ---- drawing a world ---------------------------------------------------------------------------------
+
+func drawPause(t *simrt.Tape, mustSleep bool, max time.Duration) pause {
+	var p pause
+	if mustSleep {
+		p = pause{sleep: time.Duration(t.Range(1, 20)) * time.Millisecond}
+	} else {
+		switch t.Intn(6) {
+		case 1:
+			p = pause{yields: 1 + t.Intn(2)}
+		case 2:
+			p = pause{sleep: time.Duration(t.Range(1, 5)) * time.Millisecond}
+		case 3:
+			p = pause{sleep: time.Duration(t.Range(10, 50)) * time.Millisecond}
+		case 4:
+			p = pause{sleep: time.Duration(t.Range(501, 800)) * time.Millisecond} // beyond the slow-statement threshold
+		case 5:
+			p = pause{sleep: time.Duration(t.Range(10100, 12000)) * time.Millisecond} // beyond the breaker's window
+		}
+	}
+	if p.sleep > max {
+		p.sleep = max
+	}
+	return p
+}
+
+// drawWorld draws everything about one Transact call except its tuple, and arms its faults.
+// outage: the database refuses every BEGIN (used for the tail of a long sequence).
+func (e *env) drawWorld(tp tuple, depth int, outage bool) *world {
+	t := e.r.Tape
+	w := &world{r: e.r, env: e, db: e.db, tp: tp, id: len(e.worlds), pool: e.pool, depth: depth}
+	e.worlds = append(e.worlds, w)
+	n := tp.n
+	w.kinds, w.useCtx = make([]int, n+1), make([]bool, n+1)
+	w.argMismatch, w.badDest = make([]bool, n+1), make([]bool, n+1)
+	for k := 1; k <= n; k++ {
+		w.kinds[k] = t.Intn(nKinds)
+		w.useCtx[k] = t.Bool() || tp.end == endCancel || tp.end == endAsyncCancel
+	}
+	w.errKind, w.panicKind, w.wrap = t.Intn(len(bodyErrNames)), t.Intn(len(panicNames)), t.Bool()
+	w.failMode = t.Intn(nFailModes)
+	connectFails := t.Chance(1, 4) && !outage
+
+	plan := &txFaults{ident: map[string]int{}}
+	e.db.plans[w.id] = plan
+	drawIdent := func(points ...string) {
+		id := identTable[t.Intn(len(identTable))]
+		for _, p := range points {
+			plan.ident[p] = id
+		}
+	}
+	switch tp.txf {
+	case txfBegin:
+		if connectFails {
+			plan.failConnect = true // fires only if this BEGIN has to open a new connection
+		} else {
+			plan.failBegin = true
+		}
+		drawIdent("connect", "begin")
+	case txfCommit:
+		plan.failCommit = true
+		drawIdent("commit")
+	case txfRollback:
+		plan.failRollback = true
+		drawIdent("rollback")
+	case txfCommitRollback:
+		plan.failCommit, plan.failRollback = true, true
+		drawIdent("commit")
+		drawIdent("rollback")
+	}
+	if tp.end == endStmtFail || tp.end == endStmtIgnored {
+		k := tp.pos
+		tag := 100*w.id + k
+		switch kind := w.kinds[k]; {
+		case w.failMode == fmEmpty && isSingleRow(kind):
+			e.db.emptyStmt[tag] = true // no driver error: go-zero turns the empty result into ErrNotFound
+		case w.failMode == fmPrepare && isPrepared(kind):
+			e.db.failPrepare[tag] = true
+			drawIdent("prepare")
+		case w.failMode == fmArgs:
+			w.argMismatch[k] = true
+		case w.failMode == fmScan && isQueryKind(kind):
+			w.badDest[k] = true
+		case w.failMode == fmRows && isMultiRow(kind):
+			e.db.failRows[tag] = true
+			drawIdent("rows")
+		default:
+			w.failMode = fmDriver
+			e.db.failStmt[tag] = true
+			drawIdent("stmt")
+		}
+	}
+
+	// context shape
+	switch {
+	case tp.end == endCancel:
+		if t.Bool() {
+			w.ctxKind, w.ctxD = cxBodyDeadline, time.Duration(t.Range(5, 60))*time.Millisecond
+		} else {
+			w.ctxKind = ctxTable[t.Intn(len(ctxTable))]
+		}
+	case tp.end == endAsyncCancel:
+		if t.Bool() {
+			w.ctxKind = cxAsyncDeadline
+		}
+	default:
+		w.ctxKind = ctxTable[t.Intn(len(ctxTable))]
+	}
+	if w.ctxKind == cxShortDeadline {
+		w.ctxD = time.Duration(t.Range(1, 40)) * time.Millisecond
+	}
+
+	// pauses of the body
+	async := tp.end == endAsyncCancel
+	if e.pool || w.ctxKind == cxShortDeadline || t.Chance(1, 4) {
+		for k := 0; k <= n; k++ {
+			w.pauses = append(w.pauses, drawPause(t, async, e.maxSleep))
+		}
+	}
+	if async {
+		w.ignoreCancel = t.Bool()
+	}
+
+	// re-entrant call from the body
+	if depth == 0 {
+		if nk := nestTable[t.Intn(len(nestTable))]; nk != nestNone {
+			w.nestAt, w.nestProp = t.Intn(n+1), t.Bool()
+			w.nested = e.drawWorld(decode(t.Intn(spaceSize)), depth+1, false)
+			w.nested.sessionNested = nk == nestOnSession
+		}
+	}
+	return w
+}
+
+func (w *world) sleepTotal() (d time.Duration) {
+	for _, p := range w.pauses {
+		d += p.sleep
+	}
+	if w.nested != nil {
+		d += w.nested.sleepTotal()
+	}
+	return
+}
+
+func (w *world) describe() string {
+	var ks []string
+	for k := 1; k <= w.tp.n; k++ {
+		ks = append(ks, fmt.Sprintf("%s(ctx=%v)", kindNames[w.kinds[k]], w.useCtx[k]))
+	}
+	s := fmt.Sprintf("c%d depth=%d api=%s tuple=%s statements=%v ctx=%s(%v) bodyErr=%s panic=%s wrap=%v failMode=%d pauses=%+v plan=%+v",
+		w.id, w.depth, apiNames[w.tp.api], w.tp.name(), ks, ctxNames[w.ctxKind], w.ctxD, bodyErrNames[w.errKind], panicNames[w.panicKind], w.wrap, w.failMode, w.pauses, *w.db.plans[w.id])
+	if w.sessionNested {
+		s += " ON-SESSION"
+	}
+	if w.openFails {
+		s += " POOL-UNAVAILABLE"
+	}
+	if w.nested != nil {
+		s += fmt.Sprintf(" nested=c%d@%d(propagate=%v)", w.nested.id, w.nestAt, w.nestProp)
+	}
+	if w.tp.end == endAsyncCancel {
+		s += fmt.Sprintf(" cancelAt=%v ignoreCancel=%v", w.cancelAt, w.ignoreCancel)
+	}
+	return s
+}
+
 func drawPlan(r *simrt.Run, tier string) (tuple, bool) {
 	t := r.Tape
 	idx := t.Intn(spaceSize)
 	tp := decode(idx)
 	r.Ev("tuple", int64(idx))
-	if tier == "thorough" && t.Chance(1, 4) {
+	den := 16
+	if tier == "thorough" {
+		den = 4
+	}
+	if t.Chance(1, den) {
 		// sampled, not enumerated: longer bodies
-		tp.n = t.Range(maxEnumN+1, 9)
+		tp.n = t.Range(maxEnumN+1, 12)
 		es := endingsOf(tp.n)
 		e := es[t.Intn(len(es))]
 		tp.end, tp.pos = ending(e[0]), e[1]
@@ -356,6 +921,8 @@ func drawPlan(r *simrt.Run, tier string) (tuple, bool) {
 	return tp, false
 }
 
+// ---- sequence mode ----------------------------------------------------------------------------------------
+
 func body(r *simrt.Run, tier string) {
 	t := r.Tape
 	if nextMode == modePool {
@@ -363,164 +930,290 @@ func body(r *simrt.Run, tier string) {
 		return
 	}
 	tp, sampled := drawPlan(r, tier)
-	w := &world{r: r, tp: tp, db: newSimDB(tp.name())}
-	w.db.errKind = []int{0, 0, 1, 2, 3}[t.Intn(5)]
-	if w.db.errKind != 0 {
-		r.Probe(fmt.Sprintf("injected-error-identity-%d", w.db.errKind))
+	e := newEnv(r, tier, tp.name(), false)
+	defer e.finish()
+	connKind := connTable[t.Intn(len(connTable))]
+	var accModes []int
+	switch connKind {
+	case ckFromDBAccept, ckManagedAccept:
+		accModes = []int{t.Intn(3)}
+	case ckFromDBAccept2:
+		accModes = []int{t.Intn(3), t.Intn(3)}
 	}
-	db := w.db
-
-	// secondary choices (not part of the enumerated tuple)
-	w.kinds = make([]int, tp.n+1)
-	w.useCtx = make([]bool, tp.n+1)
-	for k := 1; k <= tp.n; k++ {
-		w.kinds[k] = t.Intn(nKinds)
-		w.useCtx[k] = t.Bool() || tp.end == endCancel
-	}
-	w.errKind, w.panicKind, w.wrap = t.Intn(5), t.Intn(4), t.Bool()
-	failMode := t.Intn(3)
-	connectFails := t.Chance(1, 4)
-
-	plan := &txFaults{}
-	db.plans[0] = plan
-	switch tp.txf {
-	case txfBegin:
-		if connectFails {
-			plan.failConnect = true
-		} else {
-			plan.failBegin = true
-		}
-	case txfCommit:
-		plan.failCommit = true
-	case txfRollback:
-		plan.failRollback = true
-	case txfCommitRollback:
-		plan.failCommit, plan.failRollback = true, true
-	}
-	if tp.end == endStmtFail || tp.end == endStmtIgnored {
-		k := tp.pos
-		switch kind := w.kinds[k]; {
-		case failMode == 1 && (kind == kQueryRow || kind == kPrepQueryRow):
-			db.emptyStmt[k] = true // no driver error: go-zero turns the empty result into ErrNotFound
-		case failMode == 2 && (kind == kPrepExec || kind == kPrepQueryRow):
-			db.failPrepare[k] = true
-		default:
-			db.failStmt[k] = true
+	nSeq := seqTable[t.Intn(len(seqTable))]
+	managed := connKind == ckManaged || connKind == ckManagedAccept || connKind == ckUnknownDSN
+	if managed {
+		// go-zero gives its own pools a connection lifetime of one minute, enforced by a goroutine of
+		// database/sql that is not a task: keep the run far below a minute of virtual time
+		e.maxSleep = 50 * time.Millisecond
+		if nSeq > 4 {
+			nSeq = 4
 		}
 	}
-
-	dsn := register(db)
-	defer unregister(dsn)
-	sqlDB, err := sql.Open(driverName, dsn)
-	if err != nil {
-		r.EngineError("sql.Open: %v", err)
+	outageFrom := -1
+	if nSeq >= 6 && t.Bool() {
+		outageFrom = t.Range(1, 3)
+	}
+	closeAt := -1
+	if connKind == ckClosedDB {
+		closeAt = t.Intn(nSeq)
+	}
+	seq := []*world{e.drawWorld(tp, 0, false)}
+	for i := 1; i < nSeq; i++ {
+		tpi := decode(t.Intn(spaceSize))
+		outage := outageFrom >= 0 && i >= outageFrom
+		if outage {
+			tpi.txf = txfBegin
+		}
+		seq = append(seq, e.drawWorld(tpi, 0, outage))
+	}
+	for i, w := range seq {
+		if connKind == ckUnknownDSN || (closeAt >= 0 && i >= closeAt) {
+			w.openFails = true
+			if w.nested != nil {
+				w.nested.openFails = true
+			}
+		}
+	}
+	cleanup, ok := e.open(connKind, accModes)
+	if !ok {
 		return
 	}
-	defer sqlDB.Close() // ends database/sql's connectionOpener goroutine of this run
-	conn := sqlx.NewSqlConnFromDB(sqlDB)
-	w.bctx, w.cancel = context.WithCancel(context.Background())
-	defer w.cancel()
+	defer cleanup()
 
 	if r.Tracing() {
-		var ks []string
-		for k := 1; k <= tp.n; k++ {
-			ks = append(ks, fmt.Sprintf("%s(ctx=%v)", kindNames[w.kinds[k]], w.useCtx[k]))
+		logf(r, "conn=%s acceptable-modes=%v sequence of %d (outage from %d, db closed before %d)", connNames[connKind], accModes, nSeq, outageFrom, closeAt)
+		for _, w := range e.worlds {
+			logf(r, "plan %s", w.describe())
 		}
-		r.Logf("plan api=%s tuple=%s statements=%v errKind=%d panicKind=%d wrap=%v failMode=%d connectFails=%v",
-			apiNames[tp.api], tp.name(), ks, w.errKind, w.panicKind, w.wrap, failMode, plan.failConnect)
 	}
 
-	// ---- the one transaction of this run
-	w.transact(conn)
-	ret, escaped, didEscape := w.ret, w.escaped, w.didEscape
+	// ---- the transactions of this run, one after another
+	failedBefore := false
+	for i, w := range seq {
+		if i == closeAt {
+			e.sqlDB.Close()
+			if i > 0 {
+				r.Probe("db-closed-mid-sequence")
+			}
+		}
+		if i > 0 && failedBefore {
+			r.Probe("seq-transaction-after-failed-one")
+		}
+		w.transact(context.Background())
+		if w.ret != nil || w.didEscape {
+			failedBefore = true
+		}
+	}
 
-	log := db.snapshot()
-	for _, e := range log {
+	log := e.db.snapshot()
+	for _, ev := range log {
 		flag := int64(0)
-		if e.err != nil {
+		if ev.err != nil {
 			flag = 1
 		}
-		r.Ev(e.op, int64(e.tag), flag)
+		r.Ev(ev.op, int64(ev.client), int64(ev.tag), flag)
 	}
 	if r.Tracing() {
-		r.Logf("driver log: %s", logString(db.snapshot()))
-		r.Logf("body runs=%d outcome=%s bodyErr=%v; Transact returned %v (escaped panic: %v)", w.bodyRuns, w.outcome, w.bodyErr, ret, escaped)
+		logf(r, "driver log: %s", logString(log))
+		for _, w := range e.worlds {
+			if w.called {
+				logf(r, "c%d: body runs=%d outcome=%s bodyErr=%v; Transact returned %v (escaped panic: %v) ctx at return: %v", w.id, w.bodyRuns, w.outcome, w.bodyErr, w.ret, w.escaped, w.ctxErrAtReturn)
+			}
+		}
 	}
-	w.check(log, ret, didEscape, escaped, sqlDB.Stats().InUse)
+	// ---- oracle, per transaction
+	for _, w := range e.worlds {
+		if !w.called {
+			continue
+		}
+		w.check(log)
+		if r.Failed() {
+			return
+		}
+	}
+	// go-zero's own pool: every connection went back to it
+	if managed {
+		if raw, err := e.conn.RawDB(); err == nil {
+			if inUse := raw.Stats().InUse; inUse != 0 {
+				failf(r, "tx-left-open", "%d connection(s) of the pool that sqlx.NewSqlConn manages still checked out after every Transact returned. driver log: %s", inUse, logString(log))
+				return
+			}
+		}
+	}
 
 	// ---- coverage bookkeeping
 	r.Probe("oracle")
 	r.Probe("nontrivial")
+	w0 := seq[0]
 	r.Probe("api-" + apiNames[tp.api])
 	if sampled {
 		r.Probe("sampled-large-body")
 	} else {
 		r.Probe("tuple-" + tp.name())
 	}
-	for _, what := range []string{"begin", "connect", "commit", "rollback"} {
-		if db.fired(0, what) > 0 {
-			r.Probe("fault-fired-" + what)
-		}
+	r.Probe("conn-" + connNames[connKind])
+	r.Probe(fmt.Sprintf("seq-len-%d", nSeq))
+	if outageFrom >= 0 {
+		r.Probe("seq-outage")
 	}
-	if tp.end == endStmtFail || tp.end == endStmtIgnored {
-		switch {
-		case db.fired(0, "stmt") > 0:
-			r.Probe("fault-fired-statement")
-		case db.fired(0, "prepare") > 0:
-			r.Probe("fault-fired-prepare")
-		case db.fired(0, "empty") > 0:
-			r.Probe("fault-fired-empty-result")
-		}
-	}
-	if w.outcome == "panic" {
-		r.Probe("body-panicked")
-	}
-	if w.unexpected > 0 {
-		r.Probe("unplanned-statement-error")
-	}
+	e.coverage()
 	retStr := "<nil>"
-	if ret != nil {
-		retStr = ret.Error()
+	if w0.ret != nil {
+		retStr = w0.ret.Error()
 	}
-	r.Sample(map[string]any{"api": apiNames[tp.api], "tuple": tp.name(), "statements": tp.n, "driver_log": logString(db.snapshot()),
-		"body_outcome": w.outcome, "returned": retStr})
-}
-
-// transact performs the client's one Transact/TransactCtx call and keeps what the caller got.
-func (w *world) transact(conn sqlx.SqlConn) {
-	defer func() {
-		if p := recover(); p != nil {
-			w.escaped, w.didEscape = p, true
+	var descr []string
+	for _, w := range e.worlds {
+		if w.called && w != w0 {
+			descr = append(descr, w.summary())
 		}
-		w.cancelledAtReturn = w.cancelFired
-	}()
-	plain := func(s sqlx.Session) error { return w.txBody(w.bctx, s) }
-	switch w.tp.api {
-	case apiSqlxTransact:
-		w.ret = conn.Transact(plain)
-	case apiSqlxTransactCtx:
-		w.ret = conn.TransactCtx(w.bctx, w.txBody)
-	case apiSqlcTransact:
-		w.ret = sqlc.NewConnWithCache(conn, nil).Transact(plain)
-	default:
-		w.ret = sqlc.NewConnWithCache(conn, nil).TransactCtx(w.bctx, w.txBody)
+	}
+	r.Sample(map[string]any{"api": apiNames[tp.api], "tuple": tp.name(), "statements": tp.n, "conn": connNames[connKind], "context": ctxNames[w0.ctxKind],
+		"driver_log": logString(log), "body_outcome": w0.outcome, "returned": retStr, "further_transactions": strings.Join(descr, " | ")})
+}
+
+func (w *world) summary() string {
+	retStr := "<nil>"
+	if w.ret != nil {
+		retStr = w.ret.Error()
+	}
+	kind := ""
+	if w.depth > 0 {
+		kind = " nested"
+		if w.sessionNested {
+			kind = " nested-on-session"
+		}
+	}
+	return fmt.Sprintf("c%d%s %s %s ctx=%s -> body %s, returned %s", w.id, kind, apiNames[w.tp.api], w.tp.name(), ctxNames[w.ctxKind], w.outcome, retStr)
+}
+
+// coverage emits the probes of the sampled dimensions for every transaction that was called.
+func (e *env) coverage() {
+	r := e.r
+	pre := ""
+	if e.pool {
+		pre = "pool-"
+	}
+	for _, w := range e.worlds {
+		if !w.called {
+			continue
+		}
+		tp := w.tp
+		r.Probe("ctx-" + ctxNames[w.ctxKind])
+		if w.ctxDoneAtCall {
+			r.Probe("ctx-done-before-call")
+		}
+		if w.deadline.IsZero() == false && !w.ctxDoneAtCall && errors.Is(w.ctxErrAtReturn, context.DeadlineExceeded) {
+			r.Probe("ctx-deadline-expired-during-call")
+		}
+		if w.refusedAfterDone > 0 {
+			r.Probe("stmt-refused-after-ctx-ended")
+			if errors.Is(w.ctxErrAtReturn, context.DeadlineExceeded) {
+				r.Probe("stmt-refused-after-deadline")
+			}
+		}
+		if w.depth > 0 {
+			if w.sessionNested {
+				r.Probe("nested-on-session")
+			} else {
+				r.Probe("nested-independent")
+			}
+		}
+		for _, what := range []string{"begin", "connect", "commit", "rollback"} {
+			if e.db.fired(w.id, what) > 0 {
+				r.Probe(pre + "fault-fired-" + what)
+			}
+		}
+		if tp.end == endStmtFail || tp.end == endStmtIgnored {
+			switch {
+			case e.db.fired(w.id, "stmt") > 0:
+				r.Probe(pre + "fault-fired-statement")
+			case e.db.fired(w.id, "prepare") > 0:
+				r.Probe(pre + "fault-fired-prepare")
+			case e.db.fired(w.id, "empty") > 0:
+				r.Probe(pre + "fault-fired-empty-result")
+			case e.db.fired(w.id, "rows") > 0:
+				r.Probe(pre + "fault-fired-rows-break")
+			case w.argFaultSeen:
+				r.Probe(pre + "fault-fired-argument-mismatch")
+			case w.scanFaultSeen:
+				r.Probe(pre + "fault-fired-scan")
+			}
+		}
+		if w.bodyRuns > 0 {
+			for k := 1; k <= tp.n && k <= w.stmtsIssued; k++ {
+				r.Probe("stmt-kind-" + kindNames[w.kinds[k]])
+			}
+			for _, p := range w.pauses {
+				if p.sleep > 10*time.Second {
+					r.Probe("body-paused-beyond-breaker-window")
+				} else if p.sleep > 500*time.Millisecond {
+					r.Probe("body-paused-beyond-slow-threshold")
+				}
+			}
+		}
+		if w.outcome == "panic" {
+			r.Probe("body-panicked")
+			r.Probe("panic-value-" + panicNames[w.panicKind])
+		}
+		if w.outcome == "err" && tp.end == endErr {
+			r.Probe("body-error-" + bodyErrNames[w.errKind])
+		}
+		if w.unexpected > 0 {
+			r.Probe("unplanned-statement-error")
+		}
+	}
+	calls := 0
+	for _, w := range e.worlds {
+		if w.called {
+			calls++
+		}
+	}
+	r.ProbeN("transact-calls-evaluated", calls)
+	for k, n := range e.db.firedIdents {
+		r.ProbeN("injected-"+k, n)
 	}
 }
 
-// mine selects the events of the shared driver log that belong to this client:
-// statements by the client number in their tag, BEGIN / connect by the task on which the
-// driver was called, COMMIT / ROLLBACK by the client that began the transaction.
+// mine selects the events of the shared driver log that belong to this transaction:
+// statements by the world number in their tag, BEGIN / connect by the innermost Transact call
+// in progress on the task on which the driver was called, COMMIT / ROLLBACK by the world that
+// began the transaction.
 func (w *world) mine(log []dbEvent) []dbEvent {
-	if !w.pool {
-		return log
-	}
 	var out []dbEvent
 	for _, e := range log {
-		if (e.tag != 0 && e.tag/100 == w.client) || (e.tag == 0 && e.client == w.client) {
+		if (e.tag != 0 && e.tag/100 == w.id) || (e.tag == 0 && e.client == w.id) {
 			out = append(out, e)
 		}
 	}
 	return out
+}
+
+// sharedOpenFailure: the SqlConn opens its own pool (sqlx.NewSqlConn), other clients use it at the
+// same time, and the error returned to this call is the failure of a connection attempt that the
+// driver recorded for another call.
+func (w *world) sharedOpenFailure(fullLog []dbEvent) bool {
+	if k := w.env.connKind; !w.pool || (k != ckManaged && k != ckManagedAccept) || w.ret == nil {
+		return false
+	}
+	for _, e := range fullLog {
+		if e.op == opConnect && e.err != nil && e.client != w.id && reports(w.ret, e.err) {
+			return true
+		}
+	}
+	return false
+}
+
+// failf / logf format OUTSIDE the engine's lock: the Error methods of go-zero's own error types
+// (sqlx's acceptableError) are instrumented code and must not run while the engine holds it.
+func failf(r *simrt.Run, class, format string, a ...any) {
+	r.Fail(class, "%s", fmt.Sprintf(format, a...))
+}
+
+func logf(r *simrt.Run, format string, a ...any) {
+	if r.Tracing() {
+		r.Logf("%s", fmt.Sprintf(format, a...))
+	}
 }
 
 // reports tells whether the error handed to the caller carries the given failure.
@@ -533,9 +1226,10 @@ func reports(ret, cause error) bool {
 
 // check is the oracle: it decides the property statement on the driver's
 // begin/statement/commit/rollback log, what the body did, and what the caller got.
-func (w *world) check(log []dbEvent, ret error, didEscape bool, escaped any, inUse int) {
+func (w *world) check(fullLog []dbEvent) {
 	r := w.r
-	log = w.mine(log)
+	ret, didEscape, escaped := w.ret, w.didEscape, w.escaped
+	log := w.mine(fullLog)
 	var begins, okBegins, connectFailures int
 	var txn int
 	var beginSeq int
@@ -555,50 +1249,87 @@ func (w *world) check(log []dbEvent, ret error, didEscape bool, escaped any, inU
 	}
 	trail := func() string {
 		who := ""
-		if w.pool {
-			who = fmt.Sprintf("client c%d of a shared pool, ", w.client)
+		if len(w.env.worlds) > 1 {
+			who = fmt.Sprintf("transaction c%d of %d on one SqlConn, ", w.id, len(w.env.worlds))
 		}
-		return fmt.Sprintf("[%sapi %s, tuple %s] driver log: %s; body runs=%d outcome=%s; returned error: %v",
-			who, apiNames[w.tp.api], w.tp.name(), logString(w.db.snapshot()), w.bodyRuns, w.outcome, ret)
+		if w.pool {
+			who += "shared by concurrent clients, "
+		}
+		if w.depth > 0 {
+			who += "called from inside another transaction's body, "
+		}
+		return fmt.Sprintf("[%sconn %s, api %s, tuple %s, ctx %s] driver log: %s; body runs=%d outcome=%s; returned error: %v",
+			who, connNames[w.env.connKind], apiNames[w.tp.api], w.tp.name(), ctxNames[w.ctxKind], logString(fullLog), w.bodyRuns, w.outcome, ret)
 	}
 
 	// "begins one transaction": at most one transaction is opened; database/sql itself retries a
 	// Begin that failed with a bad-connection error on other connections (up to three attempts),
 	// which opens nothing
-	badConn := w.db.errKind == 1 || w.db.errKind == 3
+	plan := w.db.plan(w.id)
+	badConn := isBadConnIdent(plan.ident["begin"]) || isBadConnIdent(plan.ident["connect"])
 	if okBegins > 1 || (begins > 1 && !badConn) || begins > 3 {
-		r.Fail("begin-count", "%d transactions begun (%d begin attempts) by one Transact call. %s", okBegins, begins, trail())
+		failf(r, "begin-count", "%d transactions begun (%d begin attempts) by one Transact call. %s", okBegins, begins, trail())
 		return
 	}
 	// "the body is not run if the transaction cannot begin"
 	if okBegins == 0 && w.bodyRuns > 0 {
-		r.Fail("body-run-without-begin", "the body ran although no transaction had begun. %s", trail())
+		failf(r, "body-run-without-begin", "the body ran although no transaction had begun. %s", trail())
 		return
 	}
 	// "the panic is reported as an error"
 	if didEscape {
 		if w.outcome == "panic" {
-			r.Fail("panic-escaped", "the body's panic escaped Transact instead of being reported as an error: %v. %s", escaped, trail())
+			failf(r, "panic-escaped", "the body's panic escaped Transact instead of being reported as an error: %v. %s", escaped, trail())
 		} else {
-			r.Fail("internal-panic", "Transact panicked although the body did not: %v. %s", escaped, trail())
+			failf(r, "internal-panic", "Transact panicked although the body did not: %v. %s", escaped, trail())
 		}
 		return
 	}
 	if okBegins == 0 {
 		if begins == 0 && connectFailures == 0 {
-			if w.cancelledAtReturn && w.bodyRuns == 0 && errors.Is(ret, context.Canceled) {
-				// pool mode: the canceller fired before the transaction began; refusing to begin
-				// on a done context (nothing run, the context's error returned) is within the statement
-				r.Probe("pool-cancelled-before-begin")
+			// nothing reached the database: the transaction could not begin for a reason outside the driver.
+			// "the body is not run if the transaction cannot begin" holds (checked above); what remains is
+			// "the returned error is nil only when the commit succeeded"
+			switch {
+			case ret != nil && errors.Is(ret, breaker.ErrServiceUnavailable):
+				// the SqlConn's breaker rejected the call
+				r.Probe("breaker-rejected")
+				return
+			case w.ctxAPI() && ret != nil && w.ctxErrAtReturn != nil && errors.Is(ret, w.ctxErrAtReturn):
+				// refusing to begin on a context that has ended (nothing run, the context's error returned)
+				// is within the statement
+				r.Probe("ctx-ended-before-begin")
+				if w.pool {
+					r.Probe("pool-cancelled-before-begin")
+				}
+				return
+			case w.sessionNested:
+				if ret == nil {
+					failf(r, "nil-error-without-commit:nested-on-session", "Transact on a session-backed SqlConn returned nil although it began and committed nothing. %s", trail())
+					return
+				}
+				r.Probe("nested-on-session-refused")
+				return
+			case w.sharedOpenFailure(fullLog):
+				// sqlx.NewSqlConn opens its pool at first use, once for all concurrent callers: the call was
+				// handed the failure of the attempt that another client's call was making
+				r.Probe("pool-open-failure-shared-with-concurrent-caller")
+				return
+			case w.openFails:
+				if ret == nil {
+					failf(r, "nil-error-without-commit:pool-unavailable", "Transact returned nil although the SqlConn could not obtain a usable pool, so nothing began. %s", trail())
+					return
+				}
+				r.Probe("pool-unavailable-body-skipped")
 				return
 			}
-			r.Fail("no-begin", "Transact returned without trying to begin a transaction. %s", trail())
+			failf(r, "no-begin", "Transact returned without trying to begin a transaction. %s", trail())
 			return
 		}
 		r.Probe("begin-failed-body-skipped")
 		// "the returned error is nil only when the commit succeeded"
 		if ret == nil {
-			r.Fail("nil-error-without-commit:begin-failed", "Transact returned nil although the transaction could not begin. %s", trail())
+			failf(r, "nil-error-without-commit:begin-failed", "Transact returned nil although the transaction could not begin. %s", trail())
 		}
 		return
 	}
@@ -608,7 +1339,7 @@ func (w *world) check(log []dbEvent, ret error, didEscape bool, escaped any, inU
 		if w.bodyRuns > 1 {
 			cls = "body-run-twice"
 		}
-		r.Fail(cls, "a transaction began but the body ran %d times. %s", w.bodyRuns, trail())
+		failf(r, cls, "a transaction began but the body ran %d times. %s", w.bodyRuns, trail())
 		return
 	}
 	var commits, rollbacks int
@@ -625,33 +1356,33 @@ func (w *world) check(log []dbEvent, ret error, didEscape bool, escaped any, inU
 			}
 		}
 		if e.tag != 0 && (e.tx != txn || e.seq < beginSeq || (endEv.seq != 0 && e.seq > endEv.seq)) {
-			r.Fail("stmt-outside-tx", "statement %d of the body did not execute inside the transaction that Transact began for it (tx %d) (event %s). %s", e.tag%100, txn, e, trail())
+			failf(r, "stmt-outside-tx", "statement %d of the body did not execute inside the transaction that Transact began for it (tx %d) (event %s). %s", e.tag%100, txn, e, trail())
 			return
 		}
 	}
 	// "ends it exactly once"
 	switch ends := commits + rollbacks; {
 	case ends == 0:
-		r.Fail("never-ended:body-"+w.outcome, "the transaction was neither committed nor rolled back (body outcome %s). %s", w.outcome, trail())
+		failf(r, "never-ended:body-"+w.outcome, "the transaction was neither committed nor rolled back (body outcome %s). %s", w.outcome, trail())
 		return
 	case ends > 1:
-		r.Fail("ended-twice", "the transaction was ended %d times (%d commits, %d rollbacks). %s", ends, commits, rollbacks, trail())
+		failf(r, "ended-twice", "the transaction was ended %d times (%d commits, %d rollbacks). %s", ends, commits, rollbacks, trail())
 		return
 	}
 	if endEv.seq <= w.bodyEndMark {
-		r.Fail("ended-before-body-finished", "%s reached the driver before the body had finished. %s", endEv.op, trail())
+		failf(r, "ended-before-body-finished", "%s reached the driver before the body had finished. %s", endEv.op, trail())
 		return
 	}
 	// "commits iff the body returned nil, rolls back if it returned an error or panicked"
 	switch {
 	case w.outcome == "nil" && endEv.op != opCommit:
-		r.Fail("rollback-after-success", "the body returned nil but the transaction was rolled back. %s", trail())
+		failf(r, "rollback-after-success", "the body returned nil but the transaction was rolled back. %s", trail())
 		return
 	case w.outcome == "err" && endEv.op != opRollback:
-		r.Fail("commit-after-error", "the body returned error %q but the transaction was committed. %s", w.bodyErr, trail())
+		failf(r, "commit-after-error", "the body returned error %q but the transaction was committed. %s", w.bodyErr, trail())
 		return
 	case w.outcome == "panic" && endEv.op != opRollback:
-		r.Fail("commit-after-panic", "the body panicked but the transaction was committed. %s", trail())
+		failf(r, "commit-after-panic", "the body panicked but the transaction was committed. %s", trail())
 		return
 	}
 	committed := endEv.op == opCommit && endEv.err == nil
@@ -659,29 +1390,30 @@ func (w *world) check(log []dbEvent, ret error, didEscape bool, escaped any, inU
 	if ret == nil && !committed {
 		switch {
 		case w.outcome == "panic":
-			r.Fail("panic-swallowed", "the body panicked and Transact returned nil. %s", trail())
+			failf(r, "panic-swallowed", "the body panicked and Transact returned nil. %s", trail())
 		case endEv.op == opCommit:
-			r.Fail("commit-error-lost", "the commit failed with %q and Transact returned nil. %s", endEv.err, trail())
+			failf(r, "commit-error-lost", "the commit failed with %q and Transact returned nil. %s", endEv.err, trail())
 		default:
-			r.Fail("nil-error-without-commit:body-"+w.outcome, "Transact returned nil although nothing was committed. %s", trail())
+			failf(r, "nil-error-without-commit:body-"+w.outcome, "Transact returned nil although nothing was committed. %s", trail())
 		}
 		return
 	}
 	if committed && ret != nil {
-		r.Fail("error-after-commit", "the transaction was committed successfully but Transact returned %q. %s", ret, trail())
+		failf(r, "error-after-commit", "the transaction was committed successfully but Transact returned %q. %s", ret, trail())
 		return
 	}
 	// "commit or rollback failures are reported to the caller"
 	if endEv.err != nil && !reports(ret, endEv.err) {
-		r.Fail(endEv.op+"-error-lost", "the %s failed with %q, which the returned error does not report. %s", endEv.op, endEv.err, trail())
+		failf(r, endEv.op+"-error-lost", "the %s failed with %q, which the returned error does not report. %s", endEv.op, endEv.err, trail())
 		return
 	}
 	if endEv.err != nil {
 		r.Probe(endEv.op + "-failure-reported")
 	}
-	// ended at the database/sql level too: the connection went back to the pool
-	if inUse != 0 {
-		r.Fail("tx-left-open", "%d connection(s) still checked out after Transact returned. %s", inUse, trail())
+	// ended at the database/sql level too: the connection went back to the pool (the transactions
+	// of the enclosing bodies, still open, hold one connection each)
+	if w.inUseAfter >= 0 && w.inUseAfter != w.depth {
+		failf(r, "tx-left-open", "%d connection(s) checked out right after Transact returned, expected %d. %s", w.inUseAfter, w.depth, trail())
 	}
 }
 
@@ -695,8 +1427,9 @@ const (
 var nextMode int
 
 func config(t *simrt.Tape, tier string) simrt.Config {
-	// enumerated mode: one client task, forced switches cannot change anything; keep rare
-	// virtual-time stalls (a statement or the commit may take longer than the slow-call threshold)
+	// sequence mode: one client task, forced switches cannot change anything; keep rare
+	// virtual-time stalls (a statement or the commit may take longer than the slow-call threshold,
+	// a short deadline may pass anywhere inside the call)
 	st := []int{0, 0, 0, 20}[t.Intn(4)]
 	sw := 0
 	nextMode = modeEnum
